@@ -16,7 +16,7 @@ LEVEL_TEXT = ("Static structural proof of necessary conditions: (R13.1) HedSchem
               "storing it; (R13.3) the duplicate-library refusal runs before any schema is loaded, the clashing-name "
               "refusal follows every merge, the duplicate-prefix refusal dominates the group table. Equivalence of "
               "prefixed and unprefixed judgement and 'standard is contained in partnered library' are NOT decided.")
-LEVEL_EXTRA = 'Added after the seeded evaluation: (R13.4) namespace prefixes removed by length, the per-entry prefix established afresh in each iteration; (R13.5) a value stored in a per-object cache of the schema classes depends only on arguments its key depends on. (R13.6) the memoised standard schema is deep-copied before a library is merged into it. (R13.7) the capitalisation check splits the tag text without its namespace; the duplicate-library refusal is keyed by the library name. (R13.8) the prefix table is consulted with the prefix exactly as written. (R13.9) the prefix taken from the annotation is returned as written; (R13.10) tag entries are finalised with the namespace-free lookup. (R13.11) a parameter is handed on to every repository callee that takes a parameter of the same name (11 frozen exceptions package-wide).'
+LEVEL_EXTRA = 'Added after the seeded evaluation: (R13.4) namespace prefixes removed by length, the per-entry prefix established afresh in each iteration; (R13.5) a value stored in a per-object cache of the schema classes depends only on arguments its key depends on. (R13.6) the memoised standard schema is deep-copied before a library is merged into it. (R13.7) the capitalisation check splits the tag text without its namespace; the duplicate-library refusal is keyed by the library name. (R13.8) the prefix table is consulted with the prefix exactly as written. (R13.9) the prefix taken from the annotation is returned as written; (R13.10) tag entries are finalised with the namespace-free lookup. (R13.11) a parameter is handed on to every repository callee that takes a parameter of the same name (11 frozen exceptions package-wide). (R13.12) no lstrip/rstrip/strip with a computed argument where tag or version text is taken apart; (R13.13) the XML reader descends into the children of every node it parses.'
 
 SCHEMA_RECEIVERS = {"hed_schema", "_hed_schema", "_schema", "schema"}
 USER_PACKAGES = ("hed.validator", "hed.models", "hed.errors")
@@ -459,3 +459,31 @@ def run(ctx):
     from sa.forward import check_forwarding
     nfw = check_forwarding(ctx, "R13.11", [f for f in prog.functions.values() if f.module.name.startswith(('hed.schema.hed_schema_io', 'hed.schema.hed_schema_group', 'hed.schema.hed_schema'))], 'e.g. the namespace, the schema to merge into')
     ctx.floor("R13.11", "same-named parameter sites", nfw, 1)
+
+    # ---------------- R13.12: a namespace / library prefix is removed as a prefix, never with lstrip/rstrip
+    ctx.rule("R13.12", "no lstrip/rstrip/strip with a computed argument where tag or version text is taken apart")
+    from sa.idioms import check_no_strip_of_prefix
+    sc1312 = [f for f in prog.functions.values() if f.module.name.startswith(("hed.validator.", "hed.models.hed_tag", "hed.models.hed_string",
+                                                                              "hed.models.hed_group", "hed.schema.hed_schema"))]
+    check_no_strip_of_prefix(ctx, "R13.12", sc1312, "with the prefix `Sc:` the tag `Sc:Spike…` loses its `S` as well (any character of "
+                             "the prefix is stripped), so the prefixed tag is judged differently from the unprefixed one")
+    ctx.floor("R13.12", "functions in scope", len(sc1312), 100)
+
+    # ---------------- R13.13: the XML reader descends into the children of every node it parses
+    ctx.rule("R13.13", "in the XML reader's tag recursion no iteration reaches the next sibling without the recursive call on the children")
+    from sa.dom import iteration_can_skip as _skip1313, view as _view1313
+    atr = prog.try_function("SchemaLoaderXML._add_tags_recursive")
+    if atr is None:
+        raise AnalysisError("anchor SchemaLoaderXML._add_tags_recursive vanished")
+    ctx.saw(atr)
+    v1313 = _view1313(ctx, atr)
+    rec1313 = [n_ for (n_, c) in v1313.calls(lambda c: call_name(c) == atr.name)]
+    loops1313 = [lp for lp in walk_no_nested(atr.node) if isinstance(lp, ast.For)]
+    ctx.floor("R13.13", "sibling loops in _add_tags_recursive", len(loops1313), 1)
+    ctx.floor("R13.13", "recursive calls in _add_tags_recursive", len(rec1313), 1)
+    for lp in loops1313[:1]:
+        ctx.check(not _skip1313(v1313, lp, rec1313), "R13.13", atr.qualname, lp.iter, loc(atr, lp),
+                  "a node can be passed over without its children being read: when a library is appended under a prefix that already "
+                  "holds the standard schema, the nodes that already exist are skipped together with the library's own sub-trees below "
+                  "them, which are then neither part of the combined schema nor checked for clashing names",
+                  desc="children of every parsed node are read")
